@@ -49,7 +49,7 @@ def to_funwave(
 
     if not stack_dims or dimsizes == {1}:
         # Single spectrum in object, write directly to txt file
-        funwave_spectrum(darr, filename)
+        funwave_spectrum(darr.squeeze(stack_dims, drop=True), filename)
 
     else:
         # Multiple spectra in object, write each txt file in a zip archive
